@@ -49,6 +49,15 @@ def ev(node, env):
             return not v
         if isinstance(node.op, ast.USub):
             return -v
+    if isinstance(node, ast.BinOp) and isinstance(node.op, (ast.Add, ast.Mult, ast.Sub)):
+        l, r = ev(node.left, env), ev(node.right, env)
+        if isinstance(node.op, ast.Add):
+            return l + r
+        if isinstance(node.op, ast.Mult):
+            return l * r
+        return l - r
+    if isinstance(node, ast.JoinedStr):
+        return ''.join(v.value if isinstance(v, ast.Constant) else str(ev(v.value, env)) for v in node.values)
     if isinstance(node, ast.Compare):
         left = ev(node.left, env)
         for op, c in zip(node.ops, node.comparators):
